@@ -466,7 +466,23 @@ class PVLEncoder(object):
             return True
 
         tok = Token(s, grammar=self.grammar, decoder=self.decoder)
-        return not tok.is_unquoted_string()
+        if not tok.is_unquoted_string():
+            return True
+
+        return not self._reads_back(s)
+
+    def _reads_back(self, s: str) -> bool:
+        """Returns true if the text *s*, written without quotes, would
+        be decoded as the identical string, false if it would be taken for
+        something else (a keyword like NULL, TRUE or End_Group in any
+        letter case, a number, a date, ...) or would not be a value at all.
+        """
+        try:
+            value = self.decoder.decode_simple_value(s)
+        except ValueError:
+            return False
+
+        return isinstance(value, str) and value == s
 
     def encode_string(self, value) -> str:
         """Returns a ``str`` formatted as a PVL String based
@@ -635,7 +651,12 @@ class ODLEncoder(PVLEncoder):
 
         Overrides parent function.
         """
-        return not self.decoder.is_identifier(s)
+        if not self.decoder.is_identifier(s):
+            return True
+
+        # Some identifiers are not strings when read back: NULL, TRUE,
+        # END, GROUP, inf, nan ...
+        return not self._reads_back(s)
 
     def is_assignment_statement(self, s) -> bool:
         """Returns true if *s* is an ODL Assignment Statement, false otherwise.
